@@ -237,7 +237,15 @@ func (p *Prog) Actual(v ssa.Value) ssa.Value {
 		}
 		fn := prm.Parent()
 		if fn.Parent() != nil {
-			return v // closure parameter: bound dynamically
+			// a closure parameter is bound dynamically, except for a local function that is
+			// only ever called, at one place (deliverTo := func(mb string) error {…}; deliverTo(mb))
+			call := soleCallOfClosure(fn)
+			i := ParamIndex(prm)
+			if call == nil || i < 0 || i >= len(call.Call.Args) {
+				return v
+			}
+			v = call.Call.Args[i]
+			continue
 		}
 		sites := p.StaticCallSites(fn)
 		if len(sites) != 1 {
@@ -288,4 +296,95 @@ func (p *Prog) ActualsOf(prm *ssa.Parameter) (vals []ssa.Value, ok bool) {
 		}
 	}
 	return vals, true
+}
+
+// RunnerParam reports that g is a runner: a function that returns, on every return, the
+// results of calling one of its function-typed parameters (possibly with a lock held around
+// the call: func (mb *mbox) update(fn func() error) error { mb.Lock(); defer mb.Unlock(); return fn() }).
+// It returns the index of that parameter, or -1.
+func RunnerParam(g *ssa.Function) int {
+	if g == nil || len(g.Blocks) == 0 {
+		return -1
+	}
+	idx := -1
+	ok := true
+	n := 0
+	EachInstr(g, func(in ssa.Instruction) {
+		ret, isRet := in.(*ssa.Return)
+		if !isRet || in.Parent() != g || IsRecoverBlock(ret.Block()) {
+			return
+		}
+		n++
+		res := ReturnResults(ret)
+		if len(res) == 0 {
+			ok = false
+			return
+		}
+		var call *ssa.Call
+		for i, rv := range res {
+			var c *ssa.Call
+			switch x := rv.(type) {
+			case *ssa.Call:
+				c = x
+			case *ssa.Extract:
+				if x.Index != i {
+					ok = false
+					return
+				}
+				c, _ = x.Tuple.(*ssa.Call)
+			}
+			if c == nil || call != nil && c != call {
+				ok = false
+				return
+			}
+			call = c
+		}
+		prm, isP := call.Call.Value.(*ssa.Parameter)
+		if !isP || prm.Parent() != g || call.Call.IsInvoke() {
+			ok = false
+			return
+		}
+		pi := ParamIndex(prm)
+		if idx >= 0 && idx != pi {
+			ok = false
+			return
+		}
+		idx = pi
+	})
+	if !ok || n == 0 {
+		return -1
+	}
+	return idx
+}
+
+// soleCallOfClosure: fn is a function literal whose value is used for nothing but being called,
+// at exactly one call instruction of the enclosing function; that call, else nil.
+func soleCallOfClosure(fn *ssa.Function) *ssa.Call {
+	par := fn.Parent()
+	if par == nil {
+		return nil
+	}
+	var mcs []*ssa.MakeClosure
+	EachInstr(par, func(in ssa.Instruction) {
+		if mc, ok := in.(*ssa.MakeClosure); ok && mc.Fn == ssa.Value(fn) {
+			mcs = append(mcs, mc)
+		}
+	})
+	if len(mcs) != 1 || mcs[0].Referrers() == nil {
+		return nil
+	}
+	var call *ssa.Call
+	for _, ref := range *mcs[0].Referrers() {
+		switch x := ref.(type) {
+		case *ssa.DebugRef:
+		case *ssa.Call:
+			if x.Call.Value != ssa.Value(mcs[0]) || call != nil {
+				return nil
+			}
+			call = x
+		default:
+			return nil
+		}
+	}
+	return call
 }
